@@ -420,6 +420,50 @@ func cmdCheck(args []string) int {
 	return rc
 }
 
+// candidateModel asks the solver for a counterexample candidate: the failed query with every
+// quantified assertion dropped (so the model may violate an axiom; it is a candidate to replay,
+// not a proof of violation).
+func candidateModel(query string) string {
+	if query == "" {
+		return ""
+	}
+	var b strings.Builder
+	for _, ln := range strings.Split(query, "\n") {
+		if strings.HasPrefix(ln, "(assert") && (strings.Contains(ln, "(forall ") || strings.Contains(ln, "(exists ")) {
+			continue
+		}
+		if strings.HasPrefix(ln, "(get-value") {
+			continue
+		}
+		b.WriteString(ln)
+		b.WriteString("\n")
+	}
+	b.WriteString("(get-model)\n")
+	dir, _ := os.MkdirTemp("", "govc-ce")
+	defer os.RemoveAll(dir)
+	r := smt.Quick(b.String(), dir, "ce", 5)
+	if r.Status != "sat" {
+		return ""
+	}
+	// keep the interesting part: parameters and loaded values
+	var keep []string
+	lines := strings.Split(r.Output, "\n")
+	for i := 0; i < len(lines); i++ {
+		ln := lines[i]
+		t := strings.ReplaceAll(ln, "|", "")
+		if strings.Contains(t, "define-fun p.") || strings.Contains(t, "define-fun ld!") || strings.Contains(t, "define-fun l.") {
+			keep = append(keep, strings.TrimSpace(ln))
+			if i+1 < len(lines) {
+				keep = append(keep, "    "+strings.TrimSpace(lines[i+1]))
+			}
+		}
+	}
+	if len(keep) > 60 {
+		keep = keep[:60]
+	}
+	return strings.Join(keep, "\n")
+}
+
 func writeReplay(root, id string, v violation) string {
 	dir := filepath.Join(root, "replays", id)
 	os.MkdirAll(dir, 0o755)
@@ -437,6 +481,7 @@ func writeReplay(root, id string, v violation) string {
 		"property": id, "function": v.Func, "obligation": v.Obl, "status": v.Status, "reason": v.Why,
 		"clause": v.Clause, "source_line": v.SrcLine, "solver_output": v.Output, "query_file": qpath,
 		"failing_input": nil, "replay_confirmed": false,
+		"solver_counterexample_candidate": candidateModel(v.Query),
 	}
 	b, _ := json.MarshalIndent(m, "", " ")
 	os.WriteFile(path, append(b, '\n'), 0o644)
